@@ -11,6 +11,7 @@ PID = "C20"
 
 PRELUDE = r'''#![allow(dead_code, unused_imports, unused_mut, clippy::all)]
 extern crate alloc;
+use generic_array::typenum::operator_aliases::{Add1, Prod, Sum};
 use generic_array::typenum::*;
 use generic_array::{arr, box_arr, ArrayLength, GenericArray};
 use std::cell::RefCell;
@@ -94,6 +95,23 @@ def build(tier, seed):
                 f"    if {n} > 0 && d.iter().any(|v| *v != d[0]) {{ fail(@ID@, \"box_arr![impure; U<n>] is not n copies of one value\"); }}")
         iid[0] += 1
         items.append((iid[0], "repeat", {"n": n}, decl.replace("@ID@", str(iid[0])), body.replace("@ID@", str(iid[0]))))
+    # element expressions that move non-Copy locals (no side effects, but each may be used only once)
+    for k in [1, 2, 3, 5, 12]:
+        decls = "\n".join(f'    let s{i} = String::from("m{i}"); let t{i} = String::from("m{i}");' for i in range(k))
+        body = (f"{decls}\n    let a: GenericArray<String, U{k}> = arr![{', '.join(f's{i}' for i in range(k))}];\n"
+                f"    let b: Box<GenericArray<String, U{k}>> = box_arr![{', '.join(f't{i}' for i in range(k))}];\n"
+                f"    let want: Vec<String> = (0..{k}).map(|i| format!(\"m{{}}\", i)).collect();\n"
+                f"    if a.as_slice() != &want[..] {{ fail(@ID@, \"arr! of moved locals\"); }}\n    if *b != a {{ fail(@ID@, \"box_arr! of moved locals differs from arr!\"); }}")
+        add("list_moved_locals", {"count": k}, "", body)
+    # repeat forms whose length is a type-level expression without a name of its own
+    for n, ty in [(8, "Add1<U7>"), (1025, "Sum<U1024, U1>"), (3000, "Prod<U1000, U3>"), (1030, "Sum<U1000, U30>")]:
+        x = rng.randrange(1 << 31)
+        decl = f"const T_@ID@: GenericArray<u32, {ty}> = arr![{x}u32; {ty}];"
+        body = (f"    let native = [{x}u32; {n}];\n    if T_@ID@.as_slice() != &native[..] {{ fail(@ID@, \"const arr![x; <type expression>]\"); }}\n"
+                f"    let a = arr![{x}u32; {ty}];\n    if len_of(&a) != {n} || a.as_slice() != &native[..] {{ fail(@ID@, \"arr![x; <type expression>]\"); }}\n"
+                f"    let b = box_arr![{x}u32; {ty}];\n    if b.as_slice() != &native[..] {{ fail(@ID@, \"box_arr![x; <type expression>]\"); }}")
+        iid[0] += 1
+        items.append((iid[0], "repeat_type_expression", {"n": n, "type": ty}, decl.replace("@ID@", str(iid[0])), body.replace("@ID@", str(iid[0]))))
     # repeat with a non-Copy but Clone element is only offered by box_arr!
     for n in [0, 1, 3, 17]:
         body = (f"    let b: Box<GenericArray<String, U{n}>> = box_arr![String::from(\"q\"); U{n}];\n"
@@ -190,7 +208,7 @@ def run(root, pid, tier, seed):
     samples = [{"kind": it[1], "params": it[2], "body": it[4][:300]} for it in (items[2], items[40], items[-6], items[-1])]
     return E.evidence(
         pid, tier, seed, "exploration", len(items), len(nontrivial),
-        "generated invocations: list form with every element count 0..=64 plus 100, 128, 255, 256 (with and without trailing comma, including arr![] and arr![, ]) whose element expressions log their evaluation; non-Copy (String) list form; const-position list form; both repeat forms arr![x; U<n>] and arr![x; n] over 20 lengths up to 1024 in const and let position, with pure, logging and impure x; box_arr! with the same arguments; box_arr! repeat with a Clone-only element. "
+        "generated invocations: list form with every element count 0..=64 plus 100, 128, 255, 256 (with and without trailing comma, including arr![] and arr![, ]) whose element expressions log their evaluation; non-Copy (String) list form; const-position list form; both repeat forms arr![x; U<n>] and arr![x; n] over 20 lengths up to 1024 in const and let position, with pure, logging and impure x; box_arr! with the same arguments; list forms whose elements move non-Copy locals; repeat forms whose length is a type-level expression (Add1, Sum, Prod) in const and let position; box_arr! repeat with a Clone-only element. "
         "Oracle: the result coerces to an explicitly written GenericArray<_, U{k}> (so the inferred length is right) and N::USIZE = k, equals the native array literal with the same expressions, the evaluation log is exactly 0..k once each left to right; repeat forms equal [x; n] and evaluate x as [x; n] / vec![x; n] do; *box_arr![..] == arr![..]. "
         "non-trivial = invocations with at least two elements; distinct = distinct (kind, parameters)",
         samples, classes, exhaustive=False, assumptions=["a bare named const as repeat length is parsed as a type by the macro and is outside the documented forms"],
